@@ -65,7 +65,17 @@ def gen_tree(rng, scratch: str) -> typing.Tuple[Tree, typing.List[bytes], typing
     t.file(b"latin-dir/.abstract", b"R\xe9sum\xe9 of the directory")
     t.file(b"latin-dir/.names", b"Path=./doc.txt\nName=Renamed caf\xe9\nNumb=1\n")
     t.file(b"latin-dir/.cap/doc.txt", b"Abstract=cap caf\xe9\n")
-    t.file(b"mapped-dir/gophermap", "Hello from a gophermap\n0A file\tfile.txt\n1Remote\t/x\thost.example\t70\n")
+    t.file(b"mapped-dir/gophermap", "Hello from a gophermap\n0A file\tfile.txt\n1Remote\t/x\thost.example\t70\n"
+           # links to members that are there by name but resolve to nothing
+           "0Dangling\tdangling\n0Loop\tloop-a\n1Link to dir\tto-sub\n0Missing\tnothing-here\n")
+    t.symlink(b"mapped-dir/dangling", b"no-such-member")
+    t.symlink(b"mapped-dir/loop-a", b"loop-b")
+    t.symlink(b"mapped-dir/loop-b", b"loop-a")
+    t.file(b"mapped-dir/sub/in.txt", "in\n")
+    t.symlink(b"mapped-dir/to-sub", b"sub")
+    # sidecars of the archive's own top level (on disk: of the directory it was extracted to)
+    t.file(b".abstract", "Abstract of the whole archive\nsecond line")
+    t.file(b".keywords", "archive, keywords")
     t.file(b"mapped-dir/file.txt", "mapped\n")
     # a gophermap directory (and a *.gophermap file) with sidecars of their own, seen from the parent's listing
     t.file(b"mapped-dir/.abstract", "Abstract of the mapped directory")
